@@ -400,6 +400,7 @@ def c08(res, ctx):
                 if km < MAXREP: res.violation('search-value', '\t'.join(['position fen ' + h, 'go depth 5']), r, fin[-1], 'reference minimax', 'a forced mate in 3 is not reported at depth 5 (got "%s")' % got)
                 km += 1
         res.families['rich mate-in-3 positions'] = len(rm)
+    km += tablebase_mates(res, rng, q)
     mleg = legal_sets([f for f, _ in MATES] + [flip_fen(f) for f, _ in MATES])
     for fen, _ in MATES:
         if mleg.get(fen) and mleg.get(flip_fen(fen)):
@@ -455,6 +456,66 @@ def c08(res, ctx):
             if k < MAXREP: res.violation('search-value', c, 'legal pv; mate N => 2N-1 plies ending in checkmate', ' '.join(pv) + ' -> ' + o, 'property', bad)
             k += 1
     return dict(rule='go depth 1..3 on legal positions far from the fifty-move limit (and their colour-flipped twins), fresh engine and an engine that searched another position before; mate-in-N corpus at depth 2N-1; compared with the reference alpha-beta-free-of-state evaluator over the engine\'s own static evaluation (harness refsearch)')
+
+def tablebase_mates(res, rng, q):
+    """Every (quick: a sample of the) three-man position KQ-K / KR-K with a forced mate in N <= 3, and samples of four-man
+    endings, from the exhaustive recursion of harness/src/fam_tb.rs: `go depth 2N-1` must report `mate N`, play a move that
+    keeps it, and show a legal pv of 2N-1 plies ending in checkmate; both colours (colour-flipped twins)."""
+    spec = [('KQk', 16, range(16)), ('KRk', 16, range(16))]
+    four = ['KRRk', 'KQkr', 'KQkn', 'KRkb', 'KBBk', 'KQkp', 'KQPk', 'KRkn']
+    for m in four:
+        spec.append((m, 4096, range(2) if q else range(32)))
+    tcases = ['%s %d %d' % (m, i, n) for m, n, r in spec for i in r]
+    out = V.run_impl('tbmate', tcases, release=True)
+    entries = []
+    for c, o in zip(tcases, out):
+        for e in o.split(';'):
+            f = e.split('|')
+            if len(f) == 3:
+                entries.append((f[0].replace('_', ' '), int(f[1]), set(f[2].split(',')), c.split(' ')[0]))
+    res.families['tablebase positions with mate in <= 3'] = len(entries)
+    if q:
+        by = {1: [], 2: [], 3: []}
+        for e in entries: by[e[1]].append(e)
+        for v in by.values(): rng.shuffle(v)
+        entries = by[1][:60] + by[2][:180] + by[3][:460]
+    # half of them with colours flipped (Black mates)
+    sess, meta = [], []
+    for j, (fen, n, keep, mat) in enumerate(entries):
+        if j % 2:
+            fen = flip_fen(fen)
+            keep = set(flip_uci(u) for u in keep)
+        sess.append('\t'.join(['position fen ' + fen, 'go depth %d' % (2 * n - 1)])); meta.append((fen, n, keep))
+    obs = V.run_impl('session', sess, release=True)
+    res.count('search-mates-tablebase', sess)
+    bad_n, pv_cases = 0, []
+    for c, o, (fen, n, keep) in zip(sess, obs, meta):
+        ss, _ = searches(split_session(o))
+        fin = [i for i in ss[-1][0] if ' score ' in i] if ss else []
+        if not fin:
+            if bad_n < MAXREP: res.violation('search-value', c, 'mate %d' % n, o[-300:], 'tablebase', 'no score reported')
+            bad_n += 1; continue
+        info = parse_info(fin[-1])
+        got = ' '.join(info['score']); bmove = ss[-1][1].split(' ')[1]
+        why = None
+        if got != 'mate %d' % n: why = 'a forced mate in %d is reported as "%s" at depth %d' % (n, got, 2 * n - 1)
+        elif bmove not in keep: why = 'bestmove %s does not keep the forced mate in %d (keeping: %s)' % (bmove, n, ','.join(sorted(keep)))
+        if why:
+            if bad_n < MAXREP: res.violation('search-value', c, 'mate %d | %s' % (n, ','.join(sorted(keep))), fin[-1] + ' ;; ' + ss[-1][1], 'tablebase', why)
+            bad_n += 1; continue
+        pv_cases.append((fen, info.get('pv', []), n, c))
+    pvo = V.run_impl('pvcheck', ['%s\t%s' % (p, ' '.join(pv)) for p, pv, _, _ in pv_cases], release=True)
+    for (p, pv, n, c), o in zip(pv_cases, pvo):
+        m = re.match(r'legal=(\d+) final=(\S+) check=(\d) nomoves=(\d)', o)
+        if not m: continue
+        if int(m.group(1)) != len(pv) or len(pv) != 2 * n - 1 or m.group(3) != '1' or m.group(4) != '1':
+            if bad_n < MAXREP: res.violation('search-value', c, 'legal pv of %d plies ending in checkmate' % (2 * n - 1), ' '.join(pv) + ' -> ' + o, 'property', 'mate %d reported but the pv is not a legal line of 2N-1 plies ending in checkmate' % n)
+            bad_n += 1
+    return bad_n
+
+def flip_uci(u):
+    r = lambda ch: str(9 - int(ch))
+    return u[0] + r(u[1]) + u[2] + r(u[3]) + u[4:]
 
 # ------------------------------------------------------------------ C10 (engine part) and C11
 def c10_engine(res):
